@@ -8,15 +8,15 @@ open Rx Rx.Gen.Scan
 def absScan (g : ScanObserver) : St1 := .scan g.binary_op g.acc
 
 theorem tie_Scan_next (g : ScanObserver) (v : Val) :
-    (ScanObserver.next g v).map (fun r => (absScan r.1, r.2)) = some (St1.onNext (absScan g) v) := by
+    (ScanObserver.next g v).map (fun r => (absScan r.1, r.2)) = some (Rs.lift (St1.onNext (absScan g) v)) := by
   rcases g with ⟨⟩ <;> rs_tie [ScanObserver.next, absScan, St1.onNext]
 
 theorem tie_Scan_error (g : ScanObserver) (e : Err) :
-    (ScanObserver.error g e).map (fun r => r.2) = some (St1.onError' (absScan g) e).2 := by
+    (ScanObserver.error g e).map (fun r => r.2) = some ((St1.onError' (absScan g) e).2.map Rs.Ev.n) := by
   rcases g with ⟨⟩ <;> rs_tie [ScanObserver.error, absScan, St1.onError']
 
 theorem tie_Scan_complete (g : ScanObserver) :
-    (ScanObserver.complete g).map (fun r => r.2) = some (St1.onComplete' (absScan g)).2 := by
+    (ScanObserver.complete g).map (fun r => r.2) = some ((St1.onComplete' (absScan g)).2.map Rs.Ev.n) := by
   rcases g with ⟨⟩ <;> rs_tie [ScanObserver.complete, absScan, St1.onComplete']
 
 
